@@ -34,11 +34,13 @@ def generate(rng, tier):
             pair = []
             for which in range(2):
                 hi_ok = arch == "x86"      # pointer authentication bits live in the upper bits on aarch64
-                ba = (0x10000000 * (mi + 1) + 0x1000 * rng.below(16)) if which == 0 else rng.choice(
-                    [0x7f0000000000 + 0x1000 * rng.below(1 << 20), 0x1000 * rng.range(1, 64) + 0x200000 * mi,
-                     (1 << 32) * (2 * mi + rng.range(1, 2)) - 0x1000 * rng.range(1, 2),       # image straddles a 4 GiB boundary
-                     ((1 << 63) if hi_ok else (1 << 46)) + 0x1000 * rng.below(1 << 30) + 0x40000000 * mi]
-                    + ([0, 0] if mi == 1 else []))          # base address 0 is an address like any other
+                cands = [0x7f0000000000 + 0x1000 * rng.below(1 << 20), 0x1000 * rng.range(1, 64) + 0x200000 * mi,
+                         (1 << 32) * (2 * mi + rng.range(1, 2)) - 0x1000 * rng.range(1, 2),       # image straddles a 4 GiB boundary
+                         ((1 << 63) if hi_ok else (1 << 46)) + 0x1000 * rng.below(1 << 30) + 0x40000000 * mi] \
+                        + ([0, 0] if mi == 1 else [])          # base address 0 is an address like any other
+                ba = (0x10000000 * (mi + 1) + 0x1000 * rng.below(16)) if which == 0 else rng.choice(cands)
+                if which == 1 and (pi // 2 + mi // 2) % 3 == 0:
+                    ba = cands[2]          # one presentation of every program is twinned across a 4 GiB boundary (seeded change C08-1)
                 fdes = truth.program_fdes(funcs, base_svma)
                 name = "M%d" % mi; mi += 1
                 s.module_dwarf(name, ba + skip, ba + span, ba, base_svma, pres, fdes, Rng(order_rng), shuffle=True, **enc)
